@@ -29,6 +29,11 @@ pub enum SchedKind {
     Burst { mean: u16 },
     /// lowest runnable id: tasks run one after another (the sequential history)
     Sequential,
+    /// phase alignment: a task that reaches library site `site` is held there while the
+    /// others catch up; when every runnable task is parked at the site (or done), they are
+    /// released into `burst` uniformly random decisions. Puts several callers into the
+    /// same rarely executed region at the same time (first use, shared scratch).
+    Rendezvous { site: u8, burst: u16 },
     /// explicit decision list (task ids); falls back to current/lowest when the
     /// listed task is not runnable or the list is exhausted
     Replay { decisions: Vec<u8> },
@@ -63,6 +68,18 @@ static LIB_MASK: AtomicU64 = AtomicU64::new(0);
 static LIB_EVERY: AtomicU64 = AtomicU64::new(1);
 static LIB_HITS: AtomicU64 = AtomicU64::new(0);
 static LIB_YIELDS: AtomicU64 = AtomicU64::new(0);
+/// Rendezvous scheduling: the site tasks are held at (0 = off) and who is parked there.
+static RDV_SITE: AtomicU8 = AtomicU8::new(0);
+static PARKED: [AtomicU8; 8] = [
+    AtomicU8::new(0),
+    AtomicU8::new(0),
+    AtomicU8::new(0),
+    AtomicU8::new(0),
+    AtomicU8::new(0),
+    AtomicU8::new(0),
+    AtomicU8::new(0),
+    AtomicU8::new(0),
+];
 static IN_WORLD: AtomicU8 = AtomicU8::new(0);
 static STEP: AtomicU64 = AtomicU64::new(0);
 
@@ -169,6 +186,14 @@ pub fn lib_hook(site: u32) {
     }
     let n = LIB_HITS.fetch_add(1, Ordering::Relaxed);
     log_event(OP_LIB, site as u64);
+    if RDV_SITE.load(Ordering::Relaxed) as u32 == site && site != 0 {
+        let t = me() & 7;
+        PARKED[t].store(1, Ordering::Relaxed);
+        LIB_YIELDS.fetch_add(1, Ordering::Relaxed);
+        force_yield();
+        PARKED[t].store(0, Ordering::Relaxed);
+        return;
+    }
     if n % LIB_EVERY.load(Ordering::Relaxed).max(1) == 0 {
         LIB_YIELDS.fetch_add(1, Ordering::Relaxed);
         force_yield();
@@ -223,6 +248,7 @@ mod engine {
         step: usize,
         prio: Vec<u64>,
         change_points: Vec<usize>,
+        free_steps: u32,
         pub out: Arc<Mutex<(Vec<u8>, u64)>>, // decisions, switches
     }
 
@@ -243,6 +269,7 @@ mod engine {
                 step: 0,
                 prio: Vec::new(),
                 change_points,
+                free_steps: 0,
                 out,
             }
         }
@@ -300,6 +327,25 @@ mod engine {
                         }
                     }
                     best
+                },
+                SchedKind::Rendezvous { burst, .. } => {
+                    // user tasks have ids >= 1 (task i has id i + 1); the main task only spawns and joins
+                    let is_parked = |id: usize| id >= 1 && PARKED[(id - 1) & 7].load(Ordering::Relaxed) != 0;
+                    if self.free_steps > 0 {
+                        self.free_steps -= 1;
+                        ids[self.rng.usize_below(ids.len())]
+                    } else {
+                        let unparked: Vec<usize> = ids.iter().cloned().filter(|&i| !is_parked(i)).collect();
+                        if unparked.is_empty() {
+                            // everybody is at the site: release them into fine-grained interleaving
+                            self.free_steps = *burst as u32;
+                            ids[self.rng.usize_below(ids.len())]
+                        } else if cur_runnable && unparked.contains(&cur.unwrap()) && !self.rng.chance(1, 64) {
+                            cur.unwrap()
+                        } else {
+                            unparked[self.rng.usize_below(unparked.len())]
+                        }
+                    }
                 },
                 SchedKind::Replay { decisions } => match decisions.get(self.step) {
                     Some(&d) if ids.contains(&(d as usize)) => d as usize,
@@ -392,9 +438,14 @@ pub fn run_world(spec: &SchedSpec, n: usize, yield_mode: u8, stack_kib: usize, b
     // stamps are relative to the run: one seed = one repeatable execution, wherever it runs
     STEP.store(0, Ordering::Relaxed);
     let step0 = 0;
+    RDV_SITE.store(if let SchedKind::Rendezvous { site, .. } = &spec.kind { *site } else { 0 }, Ordering::Relaxed);
+    for p in PARKED.iter() {
+        p.store(0, Ordering::Relaxed);
+    }
     IN_WORLD.store(if cfg!(feature = "shuttle") { 1 } else { 2 }, Ordering::Relaxed);
     let (decisions, switches) = engine::run(spec, n, stack_kib, body);
     IN_WORLD.store(0, Ordering::Relaxed);
+    RDV_SITE.store(0, Ordering::Relaxed);
     YIELD_MODE.store(YIELD_NONE, Ordering::Relaxed);
     let log = EVENTS.lock().unwrap().take().unwrap();
     SchedTrace {
